@@ -768,6 +768,20 @@ func matrixExtras(c *Ctx) {
 		}
 		c.add(Case{Kind: "symmetrical-near-equal", Nontrivial: true, Oracle: oracle, Note: fmt.Sprintf("Symmetrical with mirrored scores %v / %v", p[0], p[1])})
 	}
+	// mirrored pairs that carry the SAME score in different spellings (0 and -0 are equal scores) must NOT panic
+	negZero := math.Copysign(0, -1)
+	for _, p := range [][2]float64{{0, negZero}, {negZero, 0}, {negZero, negZero}, {2, 2.0}, {math.Inf(1), math.Inf(1)}} {
+		m := align.SubstitutionMatrix{{'a', 'b'}: p[0], {'b', 'a'}: p[1], {'a', 'a'}: 1}
+		var sym align.SubstitutionMatrix
+		got := safe(func() string { sym = m.Symmetrical(); return "" })
+		oracle := ""
+		if got == "PANIC" {
+			oracle = fmt.Sprintf("Symmetrical panics although (a,b)=%v and (b,a)=%v are equal scores", p[0], p[1])
+		} else if len(sym) != 3 || sym[[2]byte{'a', 'b'}] != p[0] || sym[[2]byte{'b', 'a'}] != p[0] {
+			oracle = fmt.Sprintf("Symmetrical of mirrored equal scores %v / %v is not the pairs and their mirror images", p[0], p[1])
+		}
+		c.add(Case{Kind: "symmetrical-equal-spellings", Nontrivial: true, Oracle: oracle, Note: fmt.Sprintf("Symmetrical with mirrored scores %v / %v", p[0], p[1])})
+	}
 	// keys {x,Gap} and {x+1,0}: ascending order must hold on every call
 	for i := 0; i < c.n(20); i++ {
 		x := byte(c.rng.Intn(254))
